@@ -49,6 +49,10 @@ pub struct ActorSpec {
     pub slots: Vec<(u8, usize)>,
     /// spawned by the controller before the clients start (else by a Spawn step)
     pub at_start: bool,
+    /// handlers run uncontrolled (no scheduling point at their entry): a backlog is then handled within one poll
+    /// of the actor task, as far as tokio's cooperative budget lets it
+    #[serde(default)]
+    pub free_handlers: bool,
 }
 
 impl ActorSpec {
@@ -60,6 +64,7 @@ impl ActorSpec {
             on_stop: HookSpec::quick_ok(),
             slots: vec![],
             at_start: true,
+            free_handlers: false,
         }
     }
 }
@@ -135,6 +140,27 @@ pub enum SendKind {
     TellTO(u32),
     AskTO(u32),
     AskJoin,
+}
+
+/// Timeout values of the scenario grammar: milliseconds; u32::MAX = the largest Duration there is; values from
+/// 1_000_000 up encode microseconds (value - 1_000_000), for timeouts that are not whole milliseconds.
+pub const TO_MICROS_BASE: u32 = 1_000_000;
+pub fn timeout_duration(t: u32) -> std::time::Duration {
+    if t == u32::MAX {
+        std::time::Duration::MAX
+    } else if t >= TO_MICROS_BASE {
+        std::time::Duration::from_micros((t - TO_MICROS_BASE) as u64)
+    } else {
+        std::time::Duration::from_millis(t as u64)
+    }
+}
+/// the first whole millisecond at or after the deadline (the virtual clock moves in whole milliseconds)
+pub fn timeout_ms_ceil(t: u32) -> u64 {
+    if t >= TO_MICROS_BASE && t != u32::MAX {
+        ((t - TO_MICROS_BASE) as u64).div_ceil(1000)
+    } else {
+        t as u64
+    }
 }
 
 impl SendKind {
